@@ -235,23 +235,42 @@ def droppers_inventory(facts, rep, rid, fn_suffixes, audited, what):
             # locals bound inside the adapter's own closure are read through (`|p| { let id = p.first_id(); f(id) }` = `|p| f(p.first_id())`);
             # locals of the enclosing fn stay opaque
             inner = set(lid for y in fb.walk(x["args"][0]) if y.get("k") == "let" for _n, lid in fb.pat_bindings(y.get("pat"))) if x["args"] else set()
-            arg = fb.show_canon(f, x["args"][0], maxdepth=30, inline=4 if inner else 0, inline_only=inner).replace(" ", "")[:140] if x["args"] else ""
-            arg = re.sub(r"let[A-Za-z0-9_?]+=[^;]*;", "", arg)
-            sig = _norm_sig("%s(%s)" % (x["name"], arg))
-            k_ = seen.get(sig, 0)
-            seen[sig] = k_ + 1
-            n += 1
-            key = "%s|%s|%d" % (f.def_, sig, k_)
-            why = None
-            for (fs, sg), reason in audited.items():
-                sgn = _norm_sig(sg)
-                if f.def_.endswith(fs) and (sgn == sig or (len(sgn) >= 40 and sig.startswith(sgn.rstrip(")")))):
-                    why = reason
-            if why:
-                rep.ok(rid, key, "audited: " + why, loc(f, x), nontrivial=True)
+            def render(e_):
+                a_ = fb.show_canon(f, e_, maxdepth=30, inline=4 if inner else 0, inline_only=inner).replace(" ", "")[:140]
+                return re.sub(r"let[A-Za-z0-9_?]+=[^;]*;", "", a_)
+            # `.filter(|x| A && B)` keeps what `.filter(|x| A).filter(|x| B)` keeps: one signature per conjunct
+            parts = None
+            if x["name"] == "filter" and x["args"] and x["args"][0].get("k") == "closure":
+                body_ = x["args"][0]["body"]
+                while body_.get("k") == "block" and not body_.get("stmts") and body_.get("e") is not None:
+                    body_ = body_["e"]
+                conj = _conj(body_)
+                if len(conj) > 1:
+                    head = "|%s|" % ",".join(fb.show_canon(f, {"k": "closure", "params": [p_], "body": {"k": "tup", "es": []}}, maxdepth=4, inline=0).split("|")[1] for p_ in x["args"][0].get("params", []))
+                    parts = ["%s%s" % (head, render(cj)) for cj in conj]
+            joint = _norm_sig("%s(%s)" % (x["name"], render(x["args"][0]) if x["args"] else ""))
+
+            def audited_(sig_):
+                return any(f.def_.endswith(fs) and (_norm_sig(sg) == sig_ or (len(_norm_sig(sg)) >= 40 and sig_.startswith(_norm_sig(sg).rstrip(")")))) for (fs, sg) in audited)
+            if parts and not audited_(joint):
+                sigs = [_norm_sig("%s(%s)" % (x["name"], a_)) for a_ in parts]
             else:
-                rep.violation(rid, key, "new dropping adapter `.%s` in %s: %s that the library contains would be left out of the answer; if it is intended, audit it with a reason" % (
-                    sig[:80], fb.last2(f.def_), what), loc(f, x))
+                sigs = [joint]
+            for sig in sigs:
+                k_ = seen.get(sig, 0)
+                seen[sig] = k_ + 1
+                n += 1
+                key = "%s|%s|%d" % (f.def_, sig, k_)
+                why = None
+                for (fs, sg), reason in audited.items():
+                    sgn = _norm_sig(sg)
+                    if f.def_.endswith(fs) and (sgn == sig or (len(sgn) >= 40 and sig.startswith(sgn.rstrip(")")))):
+                        why = reason
+                if why:
+                    rep.ok(rid, key, "audited: " + why, loc(f, x), nontrivial=True)
+                else:
+                    rep.violation(rid, key, "new dropping adapter `.%s` in %s: %s that the library contains would be left out of the answer; if it is intended, audit it with a reason" % (
+                        sig[:80], fb.last2(f.def_), what), loc(f, x))
     return n
 
 
